@@ -19,7 +19,8 @@ MANIFEST = {
             "branch is preserved) together with kmeans_input_invariant (the normalised (t,y) points handed to the second KMeans are "
             "literally identical, so 'identical centres' is what a deterministic clustering returns); index_in_range (t_opt the k-th "
             "grid point with sps_r/2-1 <= k < 3 sps_r/2-1 => 0 <= i < sps); mu0 < y_center < mu1 whenever both windows are "
-            "non-empty; mu0 <= threshold <= mu1; snapping returns a grid point.  Tie: the same definitions executed at Float on "
+            "non-empty; mu0 <= threshold <= mu1; snapping returns a nearest grid point and |t_opt-(t_left+t_right)/2| <= one grid step "
+            "when both crossing centres lie in the span of the grid (t_opt_midway).  Tie: the same definitions executed at Float on "
             "the spied resampled waveform / centres / intervals / pdf, compared with every field of the returned eye object, with the "
             "array handed to sg.resample and with the points handed to KMeans.",
     "note": "Accuracy (8 %, sigma/2..2 sigma+3 %, crossings one slot apart within 10 %, threshold strictly between the levels, t_opt "
@@ -55,7 +56,7 @@ R_BIT = 10e9
 
 def gen_cases(rng, tier):
     cases = []
-    nrep = 60 if tier == "quick" else 400
+    nrep = 120 if tier == "quick" else 1200
     for i in range(nrep):
         sps = [8, 16, 32][i % 3]
         d = 10 ** rng.uniform(-3, 2)
